@@ -2,6 +2,7 @@ import JSight.Model.Build
 import JSight.Props.C10_Build
 import JSight.Proofs.BuildPermInters
 import JSight.Proofs.BuildPermInters2
+import JSight.Proofs.BuildPermInters3
 /-!
 C10 (catalog construction), second part — exchanging two neighbouring INTERACTION blocks of the top level.
 `Props/C10_Build.lean` moves a DECLARATION past any block; here both blocks create interactions, so after the
@@ -34,12 +35,21 @@ root is URL or a method") FALSE, so the theorems below carry the corresponding h
   interaction `GET /y` of ANOTHER block, accepted after `GET /y` and rejected before it.  `Gen.childAllowed`
   excludes such trees; `isMethodBlock` states the allowed shape.
 
-MISSING relative to the full statement: blocks whose root is a URL directive (several methods, Protocol / JSON-RPC
-Method children, the URL's own Tags, `uniqURL` / `protoURLs` conflicts) and method blocks WITH a Tags child.  The
-machinery that is independent of the block shape is complete (`Sim`, `lift_sim`, `chk_sim`, `checkSimilar_comm`,
-`local_creator_comm`, `local_local_comm`); what is missing is the analogue of `method_summary` / `methStep_comm`
-for a URL directive and for the creators below it, and the bubble-sort of the creators of one block past those of
-the other.  For concrete forests the decidable checker `bothSame'` (sound: `bothSame'_sound`) covers all shapes.
+SECOND ROUND (`…'` theorems, helper `Proofs/BuildPermInters3.lean`): the same two theorems for `isInterBlock'` —
+a method block whose descendants may also be Tags directives (`isMethodBlock'`), or a URL block whose children
+are such method blocks, Tags, Path, Paste (`isUrlBlock'`): `swap_inter_verdict_partial'`, `swap_inter_partial'`
+and the `…_noPath'` forms.  Architecture: every block is a CREATOR (a run of atoms: `simS` = checkSimilarPaths,
+`uniqS` = the unique-URL set, `tagChk` = a Tags directive, `interS` = a new interaction with its tag stage)
+followed by operations on the interactions it created (`BuildPermI.IsBlk`, closed under sequencing:
+`IsBlk.seq`); the atoms commute pairwise up to `Sim` (`atom_comm`), hence so do creators (`comm_atoms`, a bubble
+sort using that `Sim` is transitive and kept by every atom), hence so do blocks (`blk_comm`).
+
+STILL MISSING relative to the full statement: JSON-RPC children of a URL (Protocol / Method with Params, Result:
+the atoms `protoS` and an `interS` with the text-clash check of `addJsonRpcMethod`, and `LocalAt` for
+`addRpcSchema` under a Method parent — the block framework itself needs no change), and the shapes `Gen.childAllowed`
+does not allow (they are counterexamples, see `alien_url_order_matters`).  `hpaths` cannot be dropped
+(`path_stage_order_matters`).  For concrete forests the decidable checker `bothSame'` (sound: `bothSame'_sound`)
+covers all shapes.
 -/
 namespace JSight.C10I
 open JSight JSight.Build JSight.Gen
@@ -188,6 +198,196 @@ theorem swap_inter_partial_noPath (banned : List Kind) (pre post : List BTree) (
     ∃ c', compile banned (pre ++ b :: a :: post) = .ok c' ∧ SameUpToOrder' c c' :=
   swap_inter_partial banned pre post a b ha hb hpre (by rw [paths_noPath pre post a b hpa hpb]) c hc
 
+/-! ### second round: Tags below a method, URL blocks -/
+
+/-- the directives allowed below an HTTP method directive, Tags included -/
+def localKindT (d : BDir) : Bool := localKind d || d.kind == .Tags
+
+mutual
+  def localTreeT : BTree → Bool
+    | .node d kids => localKindT d && localForestT kids
+  def localForestT : List BTree → Bool
+    | [] => true
+    | t :: r => localTreeT t && localForestT r
+end
+
+/-- an HTTP-method tree with allowed descendants (Tags included) -/
+def isMethodBlock' (t : BTree) : Bool := httpMethods.contains t.dir.kind && localForestT t.kids
+
+/-- the children of a URL that create nothing: Tags, Path, Paste -/
+def quietKind (d : BDir) : Bool := d.kind == .Tags || d.kind == .Path || d.kind == .Paste
+
+mutual
+  def quietTree : BTree → Bool
+    | .node d kids => quietKind d && quietForest kids
+  def quietForest : List BTree → Bool
+    | [] => true
+    | t :: r => quietTree t && quietForest r
+end
+
+/-- a child of a URL directive (HTTP only: no Protocol / Method) -/
+def isUrlKid (t : BTree) : Bool := isMethodBlock' t || quietTree t
+
+/-- a URL tree whose children are method blocks, Tags, Path, Paste -/
+def isUrlBlock' (t : BTree) : Bool := t.dir.kind == .URL && t.kids.all isUrlKid
+
+/-- the blocks of the second partial statement -/
+def isInterBlock' (t : BTree) : Bool := isMethodBlock' t || isUrlBlock' t
+
+mutual
+  theorem localTreeT_eq : ∀ t : BTree, localTreeT t = BuildPerm.allT BuildPermI.localKindT t
+    | .node d kids => by rw [localTreeT, BuildPerm.allT, localForestT_eq kids]; rfl
+  theorem localForestT_eq : ∀ ts : List BTree, localForestT ts = BuildPerm.allF BuildPermI.localKindT ts
+    | [] => by rw [localForestT, BuildPerm.allF]
+    | t :: r => by rw [localForestT, BuildPerm.allF, localTreeT_eq t, localForestT_eq r]
+end
+
+mutual
+  theorem quietTree_eq : ∀ t : BTree, quietTree t = BuildPerm.allT BuildPermI.quietKind t
+    | .node d kids => by rw [quietTree, BuildPerm.allT, quietForest_eq kids]; rfl
+  theorem quietForest_eq : ∀ ts : List BTree, quietForest ts = BuildPerm.allF BuildPermI.quietKind ts
+    | [] => by rw [quietForest, BuildPerm.allF]
+    | t :: r => by rw [quietForest, BuildPerm.allF, quietTree_eq t, quietForest_eq r]
+end
+
+theorem isMethodBlock'_eq (t : BTree) :
+    isMethodBlock' t = (isHTTP t.dir.kind && BuildPerm.allF BuildPermI.localKindT t.kids) := by
+  unfold isMethodBlock'; rw [localForestT_eq]; rfl
+
+theorem isUrlKid_eq (t : BTree) : isUrlKid t = BuildPermI.isKid t := by
+  unfold isUrlKid BuildPermI.isKid
+  rw [isMethodBlock'_eq, quietTree_eq]
+
+theorem isInterBlock'_eq (t : BTree) : isInterBlock' t = BuildPermI.isInterBlockH t := by
+  unfold isInterBlock' BuildPermI.isInterBlockH isUrlBlock'
+  rw [isMethodBlock'_eq]
+  have : isUrlKid = BuildPermI.isKid := funext isUrlKid_eq
+  rw [this]
+
+/-- the blocks of the first round are blocks of the second one -/
+theorem isInterBlock'_of_method {t : BTree} (h : isMethodBlock t = true) : isInterBlock' t = true := by
+  rw [isInterBlock'_eq]
+  rw [isMethodBlock_eq] at h
+  unfold BuildPermI.isMethodBlock at h
+  unfold BuildPermI.isInterBlockH
+  rw [Bool.and_eq_true] at h
+  rw [Bool.or_eq_true]; left
+  rw [Bool.and_eq_true]
+  exact ⟨h.1, BuildPerm.allF_mono (fun d hd => by simp [BuildPermI.localKindT, hd]) _ h.2⟩
+
+mutual
+  theorem plain_of_localTreeT : ∀ t : BTree, localTreeT t = true → C10B.plainTree t = true
+    | .node d kids, h => by
+      rw [localTreeT, Bool.and_eq_true] at h
+      rw [C10B.plainTree, Bool.and_eq_true]
+      refine ⟨?_, plain_of_localForestT kids h.2⟩
+      rcases BuildPermI.localKindT_cases h.1 with e | e
+      · rcases BuildPermI.localKind_cases e with e | e | e | e | e | e | e | e <;> simp [C10B.plainKind, e]
+      · simp [C10B.plainKind, e]
+  theorem plain_of_localForestT : ∀ ts : List BTree, localForestT ts = true → C10B.plainForest ts = true
+    | [], _ => by rw [C10B.plainForest]
+    | t :: r, h => by
+      rw [localForestT, Bool.and_eq_true] at h
+      rw [C10B.plainForest, Bool.and_eq_true]
+      exact ⟨plain_of_localTreeT t h.1, plain_of_localForestT r h.2⟩
+end
+
+mutual
+  theorem plain_of_quietTree : ∀ t : BTree, quietTree t = true → C10B.plainTree t = true
+    | .node d kids, h => by
+      rw [quietTree, Bool.and_eq_true] at h
+      rw [C10B.plainTree, Bool.and_eq_true]
+      refine ⟨?_, plain_of_quietForest kids h.2⟩
+      have hq := h.1
+      simp only [quietKind, Bool.or_eq_true, beq_iff_eq] at hq
+      rcases hq with (e | e) | e <;> simp [C10B.plainKind, e]
+  theorem plain_of_quietForest : ∀ ts : List BTree, quietForest ts = true → C10B.plainForest ts = true
+    | [], _ => by rw [C10B.plainForest]
+    | t :: r, h => by
+      rw [quietForest, Bool.and_eq_true] at h
+      rw [C10B.plainForest, Bool.and_eq_true]
+      exact ⟨plain_of_quietTree t h.1, plain_of_quietForest r h.2⟩
+end
+
+theorem plain_of_method' {t : BTree} (h : isMethodBlock' t = true) : C10B.plainTree t = true := by
+  cases t with
+  | node d kids =>
+    simp only [isMethodBlock', BTree.dir, BTree.kids, Bool.and_eq_true] at h
+    rw [C10B.plainTree, Bool.and_eq_true]
+    refine ⟨?_, plain_of_localForestT kids h.2⟩
+    rcases BuildPermI.isHTTP_cases h.1 with e | e | e | e | e <;> simp [C10B.plainKind, e]
+
+theorem plain_of_urlKids : ∀ ts : List BTree, ts.all isUrlKid = true → C10B.plainForest ts = true
+  | [], _ => by rw [C10B.plainForest]
+  | t :: r, h => by
+    simp only [List.all_cons, Bool.and_eq_true] at h
+    rw [C10B.plainForest, Bool.and_eq_true]
+    refine ⟨?_, plain_of_urlKids r h.2⟩
+    have hk := h.1
+    unfold isUrlKid at hk
+    rw [Bool.or_eq_true] at hk
+    rcases hk with hk | hk
+    · exact plain_of_method' hk
+    · exact plain_of_quietTree t hk
+
+/-- the blocks of the second partial statement are blocks of the full one -/
+theorem isInterBlock_of' {t : BTree} (h : isInterBlock' t = true) : isInterBlock t = true := by
+  unfold isInterBlock' at h
+  rw [Bool.or_eq_true] at h
+  rcases h with h | h
+  · have hp := plain_of_method' h
+    unfold isMethodBlock' at h
+    rw [Bool.and_eq_true] at h
+    unfold isInterBlock
+    rw [Bool.and_eq_true, Bool.or_eq_true]
+    exact ⟨Or.inr h.1, hp⟩
+  · cases t with
+    | node d kids =>
+      simp only [isUrlBlock', BTree.dir, BTree.kids, Bool.and_eq_true] at h
+      simp only [isInterBlock, BTree.dir, Bool.and_eq_true, Bool.or_eq_true]
+      refine ⟨Or.inl h.1, ?_⟩
+      rw [C10B.plainTree, Bool.and_eq_true]
+      have e : d.kind = .URL := by simpa using h.1
+      exact ⟨by simp [C10B.plainKind, e], plain_of_urlKids kids h.2⟩
+
+/-- (1', partial) the verdict: two neighbouring interaction blocks — method blocks (Tags allowed) or URL blocks with
+method children — in either order.  MISSING for the full `swap_inter_verdict`: JSON-RPC children of a URL -/
+theorem swap_inter_verdict_partial' (banned : List Kind) (pre post : List BTree) (a b : BTree)
+    (ha : isInterBlock' a = true) (hb : isInterBlock' b = true) (hpre : pre ≠ [])
+    (hpaths : (pathsForest [] (pre ++ a :: b :: post) none).isOk = (pathsForest [] (pre ++ b :: a :: post) none).isOk) :
+    (compile banned (pre ++ a :: b :: post)).isOk = (compile banned (pre ++ b :: a :: post)).isOk := by
+  rw [isInterBlock'_eq] at ha hb
+  have := BuildPermI.swap_blocks_rrel banned pre post a b ha hb hpre hpaths
+  cases h1 : compile banned (pre ++ a :: b :: post) <;> cases h2 : compile banned (pre ++ b :: a :: post) <;>
+    rw [h1, h2] at this
+  · rfl
+  · cases this
+  · cases this
+  · rfl
+
+/-- (2', partial) the catalog -/
+theorem swap_inter_partial' (banned : List Kind) (pre post : List BTree) (a b : BTree)
+    (ha : isInterBlock' a = true) (hb : isInterBlock' b = true) (hpre : pre ≠ [])
+    (hpaths : (pathsForest [] (pre ++ a :: b :: post) none).isOk = (pathsForest [] (pre ++ b :: a :: post) none).isOk)
+    (c : Cat) (hc : compile banned (pre ++ a :: b :: post) = .ok c) :
+    ∃ c', compile banned (pre ++ b :: a :: post) = .ok c' ∧ SameUpToOrder' c c' := by
+  rw [isInterBlock'_eq] at ha hb
+  obtain ⟨c', h, hs⟩ := (BuildPermI.swap_blocks_rrel banned pre post a b ha hb hpre hpaths).both.1 c hc
+  exact ⟨c', h, same_of_sim hs⟩
+
+theorem swap_inter_verdict_partial_noPath' (banned : List Kind) (pre post : List BTree) (a b : BTree)
+    (ha : isInterBlock' a = true) (hb : isInterBlock' b = true) (hpre : pre ≠ [])
+    (hpa : noPathTree a = true) (hpb : noPathTree b = true) :
+    (compile banned (pre ++ a :: b :: post)).isOk = (compile banned (pre ++ b :: a :: post)).isOk :=
+  swap_inter_verdict_partial' banned pre post a b ha hb hpre (by rw [paths_noPath pre post a b hpa hpb])
+
+theorem swap_inter_partial_noPath' (banned : List Kind) (pre post : List BTree) (a b : BTree)
+    (ha : isInterBlock' a = true) (hb : isInterBlock' b = true) (hpre : pre ≠ [])
+    (hpa : noPathTree a = true) (hpb : noPathTree b = true)
+    (c : Cat) (hc : compile banned (pre ++ a :: b :: post) = .ok c) :
+    ∃ c', compile banned (pre ++ b :: a :: post) = .ok c' ∧ SameUpToOrder' c c' :=
+  swap_inter_partial' banned pre post a b ha hb hpre (by rw [paths_noPath pre post a b hpa hpb]) c hc
+
 /-! ### stand-alone facts used above -/
 
 /-- the request check accepts iff every opened request has a body: order does not matter -/
@@ -334,6 +534,56 @@ example : C10B.bothRejected [] [J, Gc, Gc2, Gd] [J, Gc2, Gc, Gd] = true ∧
 example : C10B.bothRejected [] [J, Gd, Gd2, Gc] [J, Gd2, Gd, Gc] = true ∧
     C10B.errIs (compile [] [J, Gd, Gd2, Gc]) ⟨50, .methodDefined⟩ = true ∧
     C10B.errIs (compile [] [J, Gd2, Gd, Gc]) ⟨30, .methodDefined⟩ = true := by decide +kernel
+
+/-! #### second round -/
+
+private def Tg : BTree := .node { kind := .TAG, id := 90, src := 90, named := [("TagName", s "@pets")] } []
+private def tags (id : Nat) : BTree := .node { kind := .Tags, id := id, src := id, unnamed := [s "@pets"] } []
+/-- GET /cats/{id} with Tags @pets -/
+private def GcT : BTree :=
+  .node { kind := .Get, id := 91, src := 91, named := [("Path", s "/cats/{id}")] } [tags 92, resp 93]
+/-- URL /fish with URL-level Tags @pets, a GET and a POST with a request -/
+private def Uf : BTree :=
+  .node { kind := .URL, id := 100, src := 100, named := [("Path", s "/fish")] }
+    [tags 101, .node { kind := .Get, id := 102, src := 102 } [resp 103],
+     .node { kind := .Post, id := 104, src := 104 }
+       [.node { kind := .Request, id := 105, src := 105, body := some (s "{}") } [], resp 106]]
+/-- a second URL /birds -/
+private def Ub2 : BTree :=
+  .node { kind := .URL, id := 110, src := 110, named := [("Path", s "/birds")] }
+    [.node { kind := .Put, id := 111, src := 111 } [resp 112]]
+/-- GET /cats/{id} with Tags naming the automatic tag of POST /cats, which is not declared -/
+private def GcBad : BTree :=
+  .node { kind := .Get, id := 120, src := 120, named := [("Path", s "/cats/{id}")] }
+    [.node { kind := .Tags, id := 121, src := 121, unnamed := [s "@cats"] } [], resp 122]
+
+example : isInterBlock' GcT = true ∧ isInterBlock' Uf = true ∧ isInterBlock' Ub = true ∧ isInterBlock' Ub2 = true ∧
+    isMethodBlock GcT = false ∧ isInterBlock' Pc = true ∧ noPathTree Uf = true ∧ noPathTree Ub = true ∧
+    noPathTree GcT = true ∧ noPathTree Pc = true := by decide +kernel
+
+/-- a method with Tags exchanged with a method with the automatic tag; two URL blocks; a URL block and a method -/
+example : bothSame' [] [J, Tg, GcT, Pc, Uf] [J, Tg, Pc, GcT, Uf] = true ∧
+    bothSame' [] [J, Tg, Uf, Ub, Gc] [J, Tg, Ub, Uf, Gc] = true ∧
+    bothSame' [] [J, Tg, Uf, Pc] [J, Tg, Pc, Uf] = true := by decide +kernel
+
+/-- the same by the theorem: two URL blocks -/
+example : ∃ c c', compile [] [J, Tg, Uf, Ub, Gc] = .ok c ∧ compile [] [J, Tg, Ub, Uf, Gc] = .ok c' ∧
+    SameUpToOrder' c c' := by
+  have h : (compile [] [J, Tg, Uf, Ub, Gc]).isOk = true := by decide +kernel
+  cases hc : compile [] [J, Tg, Uf, Ub, Gc] with
+  | error e => rw [hc] at h; cases h
+  | ok c =>
+    obtain ⟨c', h', hs⟩ := swap_inter_partial_noPath' [] [J, Tg] [Gc] Uf Ub (by decide +kernel) (by decide +kernel)
+      (by simp) (by decide +kernel) (by decide +kernel) c hc
+    exact ⟨c, c', rfl, h', hs⟩
+
+/-- rejected in both orders: the same URL twice; a Tags directive naming an undeclared (automatic) tag -/
+example : C10B.bothRejected [] [J, Ub, Ub2] [J, Ub2, Ub] = true ∧
+    C10B.errIs (compile [] [J, Ub, Ub2]) ⟨110, .nonUniqueURL⟩ = true ∧
+    C10B.errIs (compile [] [J, Ub2, Ub]) ⟨60, .nonUniqueURL⟩ = true ∧
+    C10B.bothRejected [] [J, Pc, GcBad] [J, GcBad, Pc] = true ∧
+    C10B.errIs (compile [] [J, Pc, GcBad]) ⟨121, .tagNotFound⟩ = true ∧
+    C10B.errIs (compile [] [J, GcBad, Pc]) ⟨121, .tagNotFound⟩ = true := by decide +kernel
 
 /-! #### why the hypotheses are there -/
 
